@@ -54,9 +54,12 @@ def _build_model(spec):
     from copy import deepcopy
     key = json.dumps(spec, sort_keys=True)
     if key not in _MODEL_CACHE:
-        _MODEL_CACHE[key] = _build_model_uncached(spec)
+        _MODEL_CACHE[key] = _build_model_uncached({k: v for k, v in spec.items() if k != 'fixed'})
     m, info = _MODEL_CACHE[key]
-    return deepcopy(m), dict(info)
+    m = deepcopy(m)
+    for pname in spec.get('fixed', []):       # forced photometry: position parameters held fixed
+        getattr(m, pname).fixed = True
+    return m, dict(info)
 
 
 def _build_model_uncached(spec):
@@ -655,6 +658,16 @@ def run(ctx):
                    'mshape': {'mode': 'bbox', 'factor': factor}, 'bkg': bkg, 'naming': 'native',
                    'fwhm_col': False, 'disc': 'center', 'os': 10, 'pseed': 3},
                   'make_model_image-superposition')
+    # models whose position parameters are fixed (every tier): the rendering sets x / y / flux on a
+    # copy, the caller's model keeps its values
+    for model in ({'name': 'imagepsf', 'shape': [9, 11], 'os': 2, 'dseed': 11, 'fixed': ['x_0', 'y_0']},
+                  {'name': 'gridded', 'os': 1, 'dseed': 13, 'fixed': ['x_0', 'y_0', 'flux']},
+                  {'name': 'cgprf', 'fwhm': 2.0, 'fixed': ['x_0', 'y_0']}):
+        rows = [{'x': 2.0, 'y': 3.0, 'f': 1.5, 'bkg': 0.25, 'ms': 5, 'fwhm': 2.0},
+                {'x': 9.4, 'y': 6.2, 'f': 2.0, 'bkg': 0.5, 'ms': 5, 'fwhm': 2.0}]
+        em.do({'kind': 'mmi', 'shape': [13, 15], 'model': model, 'rows': rows, 'mshape': {'mode': 'kw', 'kw': 5},
+               'bkg': True, 'naming': 'native', 'fwhm_col': False, 'disc': 'center', 'os': 10, 'pseed': 4},
+              'make_model_image-superposition')
     if T:
         for model in ({'name': 'gauss2d', 'x_stddev': 1.2, 'y_stddev': 2.0, 'theta': 0.5}, {'name': 'moffat2d', 'gamma': 1.5, 'alpha': 2.5}):
             rows = [{'x': 1.3, 'y': 0.6, 'f': 2.0, 'bkg': 0.5, 'ms': 3, 'fwhm': 2.0}, {'x': -7.0, 'y': 0.6, 'f': 2.0, 'bkg': 0.5, 'ms': 3, 'fwhm': 2.0}]
